@@ -77,6 +77,9 @@ def run_mc(module: str, cfg: str, workers: int = 16, timeout: int = 3600, covera
 
 def _tail(out: str, n: int = 60) -> str:
     lines = [l for l in out.splitlines() if "conda" not in l]
+    first = next((k for k, l in enumerate(lines) if l.startswith("Error:")), None)
+    if first is not None:
+        return "\n".join(lines[first:first + n])
     return "\n".join(lines[-n:])
 
 
